@@ -14,7 +14,8 @@ META = {
                    "targets, dropped features) the not-given branch writes the marker of the written storage's scalar type (NaN for "
                    "floating point, -1 for labels) and nothing else; the feature-type -> storage pool table is the same in the const "
                    "and non-const visitors and in the allocation routine (including the 2^8/2^16/2^32 single-label thresholds); the "
-                   "mask's set and get address the same byte and bit and the mask is sized (samples+7)/8 at both allocation sites.",
+                   "mask's set and get address the same byte and bit and the mask is sized (samples+7)/8 at both allocation sites; derived (product) "
+                   "features are computed after widening both stored operands to scalar_t.",
     "not_decided": "equality of views for arbitrary data; drop/shuffle history semantics; column bookkeeping arithmetic",
     "assumptions": [],
 }
@@ -368,6 +369,92 @@ def rule_mask(F, R):
         R.check(ok, "R-C08-6", "mask size@%s" % f.loc(x), f.loc(x), "mask holds (samples + 7) / 8 bytes", "mask sized as %s: the last samples have no bit" % pp(x))
 
 
+def rule_widen_first(F, R, fns):
+    """R-C08-8: derived features are computed in scalar_t: stored values are widened before any arithmetic"""
+    n = 0
+    for f in fns:
+        if not (f.relfile.startswith("include/nano/generator") or f.relfile.startswith("src/generator")):
+            continue
+        for x in f.nodes():
+            if x["k"] != "cast" or x.get("t") not in ("double",) or not x.get("c"):
+                continue
+            inner = skip(x["c"][0])
+            if inner["k"] == "bin" and inner["op"] in ("*", "+", "-", "/"):
+                n += 1
+                t = inner.get("t", "")
+                inst = "%s arithmetic@%s [%s]" % (f.qn.split("::")[-1] if not f.is_lambda else "op", f.loc(x), t)
+                R.check(t == "double", "R-C08-8", inst, f.loc(x), "arithmetic on stored values is done in scalar_t",
+                        "`%s` is computed in the storage type `%s` and widened afterwards: products of 32/64-bit integers wrap around and float32 "
+                        "products lose precision, so the generated feature is not the product of the stored values" % (pp(inner), t))
+            elif inner["k"] == "call" and inner.get("ck") == "op" and inner.get("op") in ("*", "+", "-", "/") and inner.get("t") not in ("double",) \
+                    and (inner.get("t") or "") in ("float", "int", "unsigned int", "long", "unsigned long", "short", "unsigned short", "signed char", "unsigned char"):
+                n += 1
+                R.bad("R-C08-8", "op arithmetic@%s" % f.loc(x), f.loc(x), "`%s` is computed in `%s` before widening" % (pp(inner), inner.get("t")))
+    # the product op itself must multiply two widened operands
+    ops = [g for g in F.functions.values() if g.is_lambda and g.relfile == "include/nano/generator/pairwise_product.h"]
+    for g in ops:
+        rets = [x for x in g.nodes() if x["k"] == "return"]
+        if len(rets) != 1:
+            continue
+        e = skip(rets[0]["c"][0])
+        n += 1
+        inst = "pairwise product op [%s]" % ",".join(p["t"][:40] for p in g.params)
+        ok = e["k"] == "bin" and e["op"] == "*" and e.get("t") == "double" and all(skip(s_)["k"] == "cast" and skip(s_).get("t") == "double" for s_ in e["c"])
+        R.check(ok, "R-C08-8", inst, g.loc(), "product = scalar_t(value1) * scalar_t(value2)", "product op is `%s` of type %s" % (pp(e), e.get("t")))
+    R.floor("R-C08-8", n, 4, "arithmetic sites in generator operators")
+
+
+def rule_pair_rows(F, R):
+    """R-C08-9: in make_pairwise a row index is only used with the mapping whose size bounds it"""
+    f = F.one("nano::base_pairwise_generator_t::make_pairwise", "src/generator/pairwise_base.cpp")
+    sizes = {}
+    for v in f.nodes():
+        if v["k"] == "var" and v.get("c"):
+            t = pp(v["c"][0])
+            for m in ("mapping1", "mapping2"):
+                if t.startswith(m + ".size<0"):
+                    sizes[v["n"]] = m
+    # loop variables bounded by those sizes
+    owner = {}
+    for lp in [x for x in f.nodes() if x["k"] == "for"]:
+        init, cond = lp["c"][lp["r"].index("init")], lp["c"][lp["r"].index("cond")]
+        if init["k"] == "declstmt" and cond["k"] == "bin" and cond["op"] == "<":
+            iv = init["c"][0]
+            b = pp(cond["c"][1])
+            if b in sizes and ref_decl(cond["c"][0]) == iv["d"]:
+                owner[iv["d"]] = sizes[b]
+    R.floor("R-C08-9/loops", len(owner), 2, "row loops")
+    # the pair stored per unique feature pair: first component -> mapping1 rows, second -> mapping2 rows
+    vals = [v for v in f.nodes() if v["k"] == "var" and v["n"] == "value" and v.get("c")]
+    uses = {}
+    for v in f.nodes():
+        if v["k"] == "var" and v.get("bindings") and v.get("c") and "second" in pp(v["c"][0]):
+            for bi, bd in enumerate(v["bindings"]):
+                uses[bd["d"]] = bi
+    n = 0
+    for v in vals:
+        for c in walk(v["c"][0]):
+            if c["k"] == "call" and callee(c) == "std::make_pair":
+                a = args(c)
+                n += 1
+                got = [owner.get(ref_decl(x)) for x in a[:2]]
+                R.check(got == ["mapping1", "mapping2"], "R-C08-9", "stored row pair@%s" % f.loc(c), f.loc(c),
+                        "the stored pair is (row of mapping1, row of mapping2)",
+                        "the pair `%s` stores rows of %s: with two different feature lists a row index of one mapping is later used to index "
+                        "the other (wrong source feature, read beyond the mapping)" % (pp(c), got))
+    R.floor("R-C08-9", n, 1, "stored row pairs")
+    # ... and used that way
+    for x in f.nodes():
+        if x["k"] == "call" and x.get("ck") == "mem" and callee(x).split("::")[-1] == "array" and pp(obj(x)) in ("mapping1", "mapping2") and args(x):
+            d = ref_decl(args(x)[0])
+            if d in uses:
+                want = "mapping1" if uses[d] == 0 else "mapping2"
+                R.check(pp(obj(x)) == want, "R-C08-9", "row use@%s" % f.loc(x), f.loc(x), "component %d of the stored pair indexes %s" % (uses[d], want),
+                        "component %d of the stored pair is used to index %s" % (uses[d], pp(obj(x))))
+            elif d in owner:
+                R.check(pp(obj(x)) == owner[d], "R-C08-9", "row use@%s" % f.loc(x), f.loc(x), "loop index is used with its own mapping", "loop index of %s indexes %s" % (owner[d], pp(obj(x))))
+
+
 def run(ctx):
     R = ctx.report
     tus = ctx.all_tus() if ctx.thorough else TUS
@@ -380,3 +467,5 @@ def run(ctx):
     rule_markers(F, R, anchored)
     rule_storage_table(F, R)
     rule_mask(F, R)
+    rule_widen_first(F, R, anchored)
+    rule_pair_rows(F, R)
